@@ -172,5 +172,17 @@ def run(ctx):
     for st in ("pi0", "K_S0 pi0", "D0", ("pi0",), frozenset({"K_S0"}), {"D0": 1}, "pi", "K_S0,pi0"):
         members = [k for k in dc.decays if k != dc.mother and k in st]
         one(dc, members, "iterable-kinds", raw=st)
+    # names are plain strings: a name that some matching scheme would read as a pattern (`K*0`, `D*+`, `a?c`, `[ab]`, `B.`) designates
+    # itself only; the other particles of the chain that such a pattern would match are replaced by their daughters as ever
+    fams = [("K*0", ["K_S0", "K0", "K_0*0", "K_L0"]), ("D*+", ["D+", "D_s+", "D_s*+"]), ("anti-K*0", ["anti-K0", "anti-K_0*0"]),
+            ("a?c", ["abc"]), ("[ab]", ["a", "b"]), ("B.", ["B0", "B+"]), ("D_s*+", ["D_s+", "D_s1+"]), ("K_2*0", ["K_20", "K_2(1770)0"]),
+            ("pi+", ["pi", "pii"]), ("(K)", ["K"]), ("X|Y", ["X", "Y"]), ("K\\d", ["K1"])]
+    for pat, matches in fams:
+        for x in matches if tier == "thorough" else matches[:2]:
+            dc = build_chain([("M", [pat, x, "pi+"]), (pat, ["K+", "pi-"]), (x, ["pi+", "pi-", "pi0"]), ("pi0", ["gamma", "gamma"])], rng, exact=True)
+            for st in ([pat], [x], [pat, x], [], [pat, "pi0"]):
+                one(dc, st, "pattern-like-names")
+                one(dc, st, "pattern-like-names", raw=rng.choice([tuple, set, frozenset])(st))
+            res.count("pattern_like_name_chains")
     batch.run()
     return res.done()
